@@ -463,6 +463,17 @@ fn residue<const P: i64>(c: &ResCase, obs: &mut Obs) -> Result<(), String> {
     let ab: R<P> = BigInt::from(n).into();
     ensure!(val(ab, &format!("from(BigInt {})", n))? == en, "from(BigInt {}) = {}, expected {}", n, i64::from(ab), en);
     ensure!(BigInt::from(a) == BigInt::from(en), "BigInt::from(class) wrong");
+    // integers beyond 64 and 128 bits, of both signs, built from the two numbers of the case
+    for big in [
+        BigInt::from(n) * (BigInt::from(1) << 64usize) + BigInt::from(c.m),
+        BigInt::from(c.m) * (BigInt::from(1) << 130usize) - BigInt::from(n) * (BigInt::from(1) << 64usize) + BigInt::from(n),
+        (BigInt::from(1) << 64usize) * BigInt::from(if n < 0 { -1 } else { 1 }),
+    ] {
+        let pp = BigInt::from(P);
+        let expect = ((&big % &pp) + &pp) % &pp;
+        let got: R<P> = big.clone().into();
+        ensure!(BigInt::from(val(got, &format!("from(BigInt {})", big))?) == expect, "from(BigInt {}) = {}, expected {} mod {}", big, i64::from(got), expect, P);
+    }
     // canonical representative: equal integers mod P give equal values
     if let Some(shifted) = n.checked_add(P).or_else(|| n.checked_sub(P)) {
         ensure!(R::<P>::from(shifted) == a, "{} and {} are congruent mod {} but compare unequal", n, shifted, P);
@@ -693,7 +704,9 @@ fn band(which: u8) -> BoxedStrategy<i64> {
     match which {
         0 => (-3i64..=3).boxed(),
         1 => (-100i64..=100).boxed(),
-        _ => prop_oneof![(-1_000_000_000i64..=1_000_000_000), (-3i64..=3)].boxed(),
+        2 => prop_oneof![(-1_000_000_000i64..=1_000_000_000), (-3i64..=3)].boxed(),
+        // entries close to the ends of the i64 range (solver only: the p-adic residuals then exceed 64 bits)
+        _ => prop_oneof![(i64::MAX / 4..=i64::MAX / 2), (i64::MIN / 2..=i64::MIN / 4), (-3i64..=3)].boxed(),
     }
 }
 
@@ -793,8 +806,11 @@ fn res_case() -> impl Strategy<Value = ResCase> {
 }
 
 fn solve_case() -> impl Strategy<Value = SolveCase> {
-    (1usize..=6, 1usize..=3, 0u8..3).prop_flat_map(|(n, k, bnd)| {
-        (a_strategy(n, n, bnd, SOLVER_PRIME), prop::collection::vec(band(bnd), n * k)).prop_map(move |(a, b)| SolveCase { n, k, a, b })
+    (1usize..=6, 1usize..=3, 0u8..4).prop_flat_map(|(n, k, bnd)| {
+        // band 3 (entries near the ends of the i64 range): plain random matrices only, the structured
+        // generators of a_strategy multiply entries
+        let a = if bnd == 3 { prop::collection::vec(band(3), n * n).boxed() } else { a_strategy(n, n, bnd, SOLVER_PRIME) };
+        (a, prop::collection::vec(band(bnd), n * k)).prop_map(move |(a, b)| SolveCase { n, k, a, b })
     })
 }
 
